@@ -178,11 +178,60 @@ def send(w, method, target):
         uid = "sub/../.." + (target if target.startswith("/") else "/" + target)
         return w.raw("POST", "/cal/", [("Content-Type", "text/calendar")],
                      gamma.ics_event(uid.replace("\r", "").replace("\n", ""), "written by the path test"))
+    if method == "GITPUSH":
+        return git_push_links(w)
     if method == "MULTIGET":
         # the vector travels as an href inside the body of a report on a normal calendar
         return w.raw("REPORT", "/cal/", [("Content-Type", "text/xml"), ("Depth", "1")],
                      gamma.multiget_body("calendar", [target]))
     raise ValueError(method)
+
+
+def git_push_links(w):
+    """The collection's git endpoint (smart HTTP receive-pack, routed by the WSGI front end): a
+    client pushes a commit whose tree holds two SYMBOLIC LINKS that point outside the data
+    root, then addresses them with ordinary paths.  -> the last response"""
+    import io
+    import stat as _stat
+    from dulwich.repo import Repo
+    from dulwich.objects import Blob, Tree, Commit
+    from dulwich.pack import write_pack_objects
+    from dulwich.protocol import pkt_line
+    root = w.root
+    base = os.path.dirname(root)
+    repo = Repo(os.path.join(root, "cal"))
+    try:
+        head_ref = repo.refs.follow(b"HEAD")[0][-1]
+        old = repo.refs[head_ref]
+        tree = Tree()
+        for e in repo[repo[old].tree].items():
+            tree.add(e.path, e.mode, e.sha)
+        ftarget = Blob.from_string(os.path.join(base, "outside", "file.txt").encode())
+        dtarget = Blob.from_string(os.path.join(base, "outside").encode())
+        tree.add(b"link.txt", _stat.S_IFLNK, ftarget.id)
+        tree.add(b"ext", _stat.S_IFLNK, dtarget.id)
+        c = Commit()
+        c.tree = tree.id
+        c.parents = [old]
+        c.author = c.committer = b"client <client@example.invalid>"
+        c.author_time = c.commit_time = 1700000000
+        c.author_timezone = c.commit_timezone = 0
+        c.message = b"sync"
+        pack = io.BytesIO()
+        try:
+            write_pack_objects(pack.write, [(ftarget, None), (dtarget, None), (tree, None), (c, None)], repo.object_format)
+        except (TypeError, AttributeError):
+            write_pack_objects(pack.write, [(ftarget, None), (dtarget, None), (tree, None), (c, None)])
+        body = pkt_line(old + b" " + c.id + b" " + head_ref + b"\0report-status") + pkt_line(None) + pack.getvalue()
+    finally:
+        repo.close()
+    w.raw("POST", "/cal/.git/git-receive-pack", [("Content-Type", "application/x-git-receive-pack-request")], body)
+    # ordinary requests with clean paths below the collection
+    w.raw("PUT", "/cal/link.txt", [("Content-Type", "text/plain")], b"written through the link\n")
+    w.raw("MKCOL", "/cal/ext/newcol")
+    w.raw("PUT", "/cal/ext/cal/planted.ics", [("Content-Type", "text/calendar")], gamma.ics_event("planted-1", "planted"))
+    w.raw("GET", "/cal/ext/cal/a.ics")
+    return w.raw("PROPFIND", "/cal/ext/cal/", [("Depth", "1"), ("Content-Type", "text/xml")], gamma.PROPFIND_ALL)
 
 
 def classify(paths, base, root):
